@@ -1204,3 +1204,12 @@ Proof.
   rewrite (validate_json_ext (to_json_fields_direct c tid) (to_json_fields c tid)); [exact V|].
   destruct (direct_io_same_doc c tid) as (_ & _ & _ & G & _). exact G.
 Qed.
+
+(* the creation dates isoformat() gives for tz-aware datetimes are accepted; corrupt offsets are not *)
+Lemma date_offsets :
+  forallb date_ok [K "2024-02-29T13:14:15+00:00"; K "2024-02-29T13:14:15.000007+05:30"; K "2024-02-29T13:14:15-05:30";
+                   K "2024-02-29T13:14:15Z"; K "2024-02-29T13:14:15+0530"; K "2024-02-29T13:14:15+05:30:15.5"] = true
+  /\ existsb date_ok [K "2024-02-29T13:14:15+0"; K "2024-02-29T13:14:15+25:00"; K "2024-02-29T13:14:15+05:30x";
+                       K "2024-02-29T13:14:15z"; K "2024-02-29T13:14+00:00"; K "2024-02-29+00:00";
+                       K "2024-02-29T13:14:15+0530:15"; K "2024-02-29T13:14:15+05:3015"; K "2024-02-29T13:14:15+00:60"] = false.
+Proof. split; vm_compute; reflexivity. Qed.
